@@ -585,6 +585,17 @@ def X13(ctx: Ctx, mode: str = 'access') -> RuleResult:
             return
         for ch in children(t):
             check(ch, facts, fi, line)
+    _inv_cache: Dict[Tuple[str, str], bool] = {}
+
+    def stored_invariant(cls_, fld) -> bool:
+        k_ = (cls_.name, fld.name)
+        if k_ not in _inv_cache:
+            from .rules_attrs import field_narrowings
+            try:
+                _inv_cache[k_] = bool(field_narrowings(ctx, cls_, fld))
+            except AnalysisError:
+                _inv_cache[k_] = False
+        return _inv_cache[k_]
     n = 0
     # helpers of private classes come last: one that was looked through at its call sites has been judged there
     for fi in sorted(m.all_functions(), key=_private_helper):
@@ -633,6 +644,12 @@ def X13(ctx: Ctx, mode: str = 'access') -> RuleResult:
                     for X, fn in claim:
                         if isinstance(X, Ite):
                             continue    # about a value chosen between two others: not a statement about one tested value
+                        if isinstance(X, Attr) and isinstance(X.base, Sym) and X.base.name == 'self' and fi.cls is not None:
+                            # about a stored child of self whose field is narrowed on construction (converter / validator):
+                            # the assertion restates part of that field's invariant, which this analysis does not model
+                            fld = fi.cls.field(X.name)
+                            if fld is not None and stored_invariant(fi.cls, fld):
+                                continue
                         bt = ev.type_of(X)
                         if bt is None or bt.name not in ast_names:
                             continue
